@@ -77,9 +77,11 @@ def pdb_atom_line(serial, ln):
     return "".join(col)
 
 
-def emit_pdb(lines, serial0=0):
+def emit_pdb(lines, serial0=0, ter_before_het=False):
     """Abstract lines -> PDB text.  MODEL/ENDMDL bracket every model when the table has more than
-    one model or its only model is not numbered 1; TER after every chain; END."""
+    one model or its only model is not numbered 1; TER after every chain; END.
+    ter_before_het: the layout of deposited files - the TER record closes the POLYMER of a chain, its hetero
+    groups (ligands, ions, water under the same chain id) follow the TER."""
     models = []
     for ln in lines:
         if ln["m"] not in models:
@@ -107,6 +109,8 @@ def emit_pdb(lines, serial0=0):
             cur_model = ln["m"]
             prev = None
         if prev is not None and prev["ch"] != ln["ch"]:
+            ter()
+        elif ter_before_het and prev is not None and not prev["het"] and ln["het"]:
             ter()
         serial += 1
         out.append(pdb_atom_line(serial, ln))
@@ -224,7 +228,7 @@ def project_atoms(atoms):
 
 def case_text(case):
     if case["fmt"] == "pdb":
-        return emit_pdb(case["lines"], case.get("serial0", 0))
+        return emit_pdb(case["lines"], case.get("serial0", 0), bool(case.get("terhet")))
     cols = list(_CIF_COLS)
     if case.get("colseed"):
         random.Random(case["colseed"]).shuffle(cols)
@@ -637,11 +641,13 @@ def c08_cases(tables, colshuffle_every=5):
             colseed = (n + 1) if (fmt == "cif" and n % colshuffle_every == 0) else 0
             # every third PDB rendering numbers its records from just below 10000 (five-digit serials)
             serial0 = (9999 - len(lines) // 2) if (fmt == "pdb" and len(cases) % 3 == 0) else 0
+            # every second PDB rendering closes the polymer of a chain with TER BEFORE its hetero groups (deposited layout)
+            terhet = fmt == "pdb" and (len(cases) // 2) % 2 == 0
             for req in [0] + models:
                 cases.append({"id": f"{t['tid']}-{fmt}-r{req}", "kind": "read", "fmt": fmt, "req": req, "lines": lines,
-                              "colseed": colseed, "serial0": serial0})
+                              "colseed": colseed, "serial0": serial0, "terhet": terhet})
             cases.append({"id": f"{t['tid']}-{fmt}-parse", "kind": "parse", "fmt": fmt, "req": 0, "lines": lines,
-                          "colseed": colseed, "serial0": serial0})
+                          "colseed": colseed, "serial0": serial0, "terhet": terhet})
     return cases
 
 
